@@ -4,8 +4,12 @@ import PygModel.Calendar
 namespace Pyg.CalendarDriver
 open Pyg Pyg.Calendar
 
+/-- `tbl` caches `cur.bdays`: it is written only together with `cur` (ops `new`, `reg`), so
+`c.addT tbl … = c.add …` etc. hold by definition (`Cal.add c = c.addT c.bdays`); the cache merely avoids rebuilding
+the table for every request -/
 structure State where
   cur : Option Cal := none
+  tbl : List Int := []
   reg : Registry := []
 
 abbrev St := State
@@ -56,12 +60,13 @@ def handle (s : St) (op : String) (args : List Sexp) : Option (St × String) := 
       if degenerate we then none
       let c0 : Cal := { t0, t1, weekend := we, hol, adj := .m, month := Civil.month }
       let a ← adjOf c0 adj
-      pure ({ s with cur := some { c0 with adj := a } }, "ok N")
+      let c : Cal := { c0 with adj := a }
+      pure ({ s with cur := some c, tbl := c.bdays }, "ok N")
   | "reg", [.atom k, hol, we, t0, t1] =>
       let hol ← optIntList hol; let we ← optIntList we; let t0 ← optInt t0; let t1 ← optInt t1
       if degenerate (we.getD []) then none
       let (r, c) := s.reg.calendar Civil.month k { hol, weekend := we, t0, t1 }
-      pure ({ cur := some c, reg := r }, describe c)
+      pure ({ cur := some c, tbl := c.bdays, reg := r }, describe c)
   | "ymd", [n] =>
       let n ← n.toInt?
       let (y, m, d) := Civil.ymd n
@@ -75,13 +80,13 @@ def handle (s : St) (op : String) (args : List Sexp) : Option (St × String) := 
     | "add", [a, t, n] | "bump", [a, t, n] =>   -- Calendar.dt_bump(t, 'nb', adj) is add(t, n, adj) (_drange.py:590-595)
         let a ← adjOf c a; let t ← t.toInt?; let n ← n.toInt?
         if n = 0 && c.isHol (c.adjust a t) then pure (s, "err Other")   -- real code: endless loop
-        else pure (s, resInt (c.add a t n))
+        else pure (s, resInt (c.addT s.tbl a t n))
     | "bdays", [a, x, y] =>
         let a ← adjOf c a; let x ← x.toInt?; let y ← y.toInt?
-        pure (s, resInt (c.bdaysBetween a x y))
+        pure (s, resInt (c.bdaysBetweenT s.tbl a x y))
     | "drange", [x, y, b] =>
         let x ← x.toInt?; let y ← y.toInt?; let b ← b.toInt?
-        pure (s, resInts (c.drangeB x y b))
+        pure (s, resInts (c.drangeBT s.tbl x y b))
     | _, _ => none
 
 end Pyg.CalendarDriver
